@@ -32,6 +32,20 @@ fn stop_here(x: u64) -> u64 {{
     x + 1
 }}
 
+#[inline(never)]
+fn takes_args(a_vec: Vec<i32>, a_str: String, a_opt: Option<u8>, a_tup: (i32, bool), a_ref: &Vec<u8>, a_map: &BTreeMap<u16, u16>, a_u: u64, a_f: f64) -> usize {{
+    let k = a_vec.len() + a_str.len() + a_ref.len() + a_map.len();
+    println!("DBG a_vec={{:?}}", a_vec);
+    println!("DBG a_str={{:?}}", a_str);
+    println!("DBG a_opt={{:?}}", a_opt);
+    println!("DBG a_tup={{:?}}", a_tup);
+    println!("DBG a_ref={{:?}}", a_ref);
+    println!("DBG a_map={{:?}}", a_map);
+    println!("DBG a_u={{:?}}", a_u);
+    println!("DBG a_f={{:?}}", a_f);
+    k + a_u as usize + a_opt.unwrap_or(0) as usize + a_tup.0.unsigned_abs() as usize + a_f as usize
+}}
+
 fn main() {{
     let n: u64 = {n};
     let s_ascii = String::from("hello");
@@ -118,6 +132,7 @@ fn main() {{
     TL_A.with(|c| c.set(78));
     let g = unsafe {{ std::ptr::read_volatile(&raw const G_MUT) }} + G_U32 as i64;
     let r = stop_here(g as u64);
+    let ka = takes_args(v_i32.clone(), s_utf8.clone(), Some(7), (-3, true), &vv[0], &bm_del, n, 2.5);
     println!("DBG s_ascii={{:?}}", s_ascii);
     println!("DBG s_utf8={{:?}}", s_utf8);
     println!("DBG s_empty={{:?}}", s_empty);
@@ -148,12 +163,13 @@ fn main() {{
     println!("DBG tup={{:?}}", tup);
     println!("DBG n={{:?}}", n);
     println!("DBG g={{:?}}", g);
-    println!("{{r}} {{}} {{}} {{}} {{}} {{}} {{}} {{}} {{}} {{}} {{}} {{}} {{}} {{}} {{}} {{}} {{}} {{}} {{}} {{:?}} {{:?}} {{:?}} {{:?}} {{:?}} {{}}", s_ascii, s_utf8, s_empty.len(), v_i32.len(), v_empty.len(), v_cap.len(), vv.len(), v_str.len(), vd.len(), hm.len(), hs.len(), bm.len(), bs.len(), bx.0, rc2, arc, cell.get(), bm_tup.len() + hm_tup.len() + hm_key.len() + hm_del.len() + hs_del.len() + bm_del.len() + vd_del.len(), rcell, opt_s, opt_none, sl, tup, n);
+    println!("{{r}} {{ka}} {{}} {{}} {{}} {{}} {{}} {{}} {{}} {{}} {{}} {{}} {{}} {{}} {{}} {{}} {{}} {{}} {{}} {{}} {{:?}} {{:?}} {{:?}} {{:?}} {{:?}} {{}}", s_ascii, s_utf8, s_empty.len(), v_i32.len(), v_empty.len(), v_cap.len(), vv.len(), v_str.len(), vd.len(), hm.len(), hs.len(), bm.len(), bs.len(), bx.0, rc2, arc, cell.get(), bm_tup.len() + hm_tup.len() + hm_key.len() + hm_del.len() + hs_del.len() + bm_del.len() + vd_del.len(), rcell, opt_s, opt_none, sl, tup, n);
 }}
 "#
     )
 }
 
+pub const ARGD_NAMES: [&str; 8] = ["a_vec", "a_str", "a_opt", "a_tup", "a_ref", "a_map", "a_u", "a_f"];
 pub const VARD_NAMES: [&str; 30] = ["s_ascii", "s_utf8", "s_empty", "v_i32", "v_empty", "v_cap", "vv", "v_str", "vd", "vd_del", "hm", "hm_del", "hs_del", "hm_key", "hs", "bm", "bm_del", "bs", "bx", "rc", "arc", "cell", "rcell", "opt_s", "opt_none", "arr", "sl", "tup", "n", "g"];
 
 /// Build (if needed) the program for one size parameter: (exe, source file name, line of the stop).
@@ -248,6 +264,40 @@ fn expected(n: u64) -> Vec<(&'static str, Value, &'static str)> {
     ]
 }
 
+/// expected arguments of `takes_args` at its second statement (at the first one the location list
+/// of the by-reference arguments has a gap: the compiler says they are not available there)
+fn expected_args(n: u64) -> Vec<(&'static str, Value)> {
+    let ni = n as i64;
+    vec![
+        ("a_vec", json!((0..ni).map(|k| s(if k % 2 == 0 { k } else { -k })).collect::<Vec<_>>())),
+        ("a_str", json!({"s": "héllo wörld ✓"})),
+        ("a_opt", json!({"variant": "Some", "value": [["__0", "7"]]})),
+        ("a_tup", json!([["__0", "-3"], ["__1", true]])),
+        ("a_ref", json!("ptr")),
+        ("a_map", json!("ptr")),
+        ("a_u", s(n)),
+        ("a_f", s("2.5")),
+    ]
+}
+
+/// data-query expressions over arguments (`arg <expr>`)
+fn expected_arg_dqe(n: u64) -> Vec<(String, Option<Value>)> {
+    vec![
+        ("*a_ref".into(), Some(json!(["1", "2"]))),
+        ("(*a_ref)[1]".into(), Some(s(2))),
+        ("(*a_ref)[2]".into(), None),
+        ("*a_map".into(), Some(map_of((0..200u64).filter(|k| k % 5 == 0).map(|k| json!([s(k), s(k + 1)])).collect()))),
+        ("(*a_map)[5]".into(), Some(s(6))),
+        ("(*a_map)[6]".into(), None),
+        ("a_tup.__1".into(), Some(json!(true))),
+        ("a_tup.__0".into(), Some(s(-3))),
+        ("a_vec[0]".into(), Some(s(0))),
+        (format!("a_vec[{n}]"), None),
+        ("a_nothing".into(), None),
+        ("v_i32".into(), None),
+    ]
+}
+
 /// expressions and their expected plain results (None = must select nothing / fail)
 fn expected_dqe(n: u64) -> Vec<(String, Option<Value>)> {
     let last = n as i64 - 1;
@@ -312,7 +362,7 @@ fn expected_dqe(n: u64) -> Vec<(String, Option<Value>)> {
 /// `expressions = false`: the locals (C06); `true`: the data-query expressions (C07).
 pub fn part_std(tier: Tier, expressions: bool) -> Part {
     let mut part = Part::new(if expressions { "c07_std_expressions" } else { "c06_std_collections" });
-    part.rule = "std-linked debuggee generated from a size parameter: locals of String, Vec (empty, spare capacity, nested, of Strings), VecDeque (ring wrapped at several offsets), HashMap (scalar and struct keys), HashSet, BTreeMap/BTreeSet (multi-level), Box, Rc, Arc, Cell, RefCell, Option<String>, slices, tuples, statics and a thread-local; read_local_variables at a stop must equal the generator's table (sequences in order, sets/maps as sets, collection type names); 39 data-query expressions (index, key, key pattern, slice, deref, field, canonical header; including misses) must give the table's answer".into();
+    part.rule = "std-linked debuggee generated from a size parameter: locals of String, Vec (empty, spare capacity, nested, of Strings), VecDeque (ring wrapped at several offsets), HashMap (scalar and struct keys), HashSet, BTreeMap/BTreeSet (multi-level), Box, Rc, Arc, Cell, RefCell, Option<String>, slices, tuples, statics and a thread-local; read_local_variables at a stop must equal the generator's table (sequences in order, sets/maps as sets, collection type names); at a second stop inside a callee with 8 parameters (Vec, String, Option, tuple, &Vec, &BTreeMap, u64, f64) `arg all` must show exactly those parameters with the values passed, and 12 `arg <expression>` queries (deref of the reference parameters, index, key, field, misses, a caller's local) their table answers; 39 data-query expressions (index, key, key pattern, slice, deref, field, canonical header; including misses) must give the table's answer".into();
     let dir = crate::common::build_dir().join("std");
     let _ = std::fs::create_dir_all(&dir);
     let configs: &[(u64, u64)] = if tier == Tier::Quick { &[(3, 5)] } else { &[(1, 0), (3, 5), (12, 7), (40, 13), (150, 3)] };
@@ -338,24 +388,30 @@ pub fn part_std(tier: Tier, expressions: bool) -> Part {
         }
         let line = text.lines().position(|l| l.contains("let r = stop_here")).map(|i| i as u64 + 1).unwrap_or(0);
         let exprs: Vec<String> = expected_dqe(n).into_iter().map(|e| e.0).collect();
+        let arg_line = text.lines().position(|l| l.contains("DBG a_vec=")).map(|i| i as u64 + 1).unwrap_or(0);
+        let arg_exprs: Vec<String> = expected_arg_dqe(n).into_iter().map(|e| e.0).collect();
         let cmds = vec![
             json!({"op": "break_line", "file": src.file_name().unwrap().to_string_lossy(), "line": line}),
+            json!({"op": "break_line", "file": src.file_name().unwrap().to_string_lossy(), "line": arg_line}),
             json!({"op": "start"}),
             json!({"op": "values", "names": [], "derefs": []}),
             json!({"op": "dqe", "exprs": exprs}),
             json!({"op": "vard", "exprs": VARD_NAMES}),
+            json!({"op": "continue"}),
+            json!({"op": "values", "names": [], "derefs": []}),
+            json!({"op": "dqe", "exprs": arg_exprs, "args": true}),
             json!({"op": "continue"}),
         ];
         let run = session(&exe.display().to_string(), |obs| cmds.get(obs.len()).cloned(), Duration::from_secs(60), cmds.len());
         let replay = json!({"engine": "mt", "exe": exe.display().to_string(), "commands": cmds});
         part.states += run.obs.len() as u64;
         part.traces_validated += 1;
-        if run.hang_at.is_some() || run.crashed.is_some() || run.obs.len() < 4 {
+        if run.hang_at.is_some() || run.crashed.is_some() || run.obs.len() < 10 {
             part.violate(if expressions { "C07:std:session-broke" } else { "C06:std:session-broke" }, format!("[n={n}] hang {:?} crash {:?}", run.hang_at, run.crashed), replay);
             continue;
         }
         // locals
-        let locals = run.obs[2]["res"]["frames"][0]["locals"]["Ok"].as_array().cloned().unwrap_or_default();
+        let locals = run.obs[3]["res"]["frames"][0]["locals"]["Ok"].as_array().cloned().unwrap_or_default();
         for (name, want, ty) in if expressions { vec![] } else { expected(n) } {
             part.evaluations += 1;
             part.distinct_nontrivial += 1;
@@ -378,12 +434,31 @@ pub fn part_std(tier: Tier, expressions: bool) -> Part {
                 part.sample(json!({"n": n, "local": name, "shown": p}));
             }
         }
-        // expressions (C07 meaning on collections)
-        let results = &run.obs[3]["res"]["results"];
-        for (e, want) in if expressions { expected_dqe(n) } else { vec![] } {
+        // arguments of the callee at the second stop (`arg all`)
+        let args = run.obs[7]["res"]["frames"][0]["args"]["Ok"].as_array().cloned().unwrap_or_default();
+        for (name, want) in if expressions { vec![] } else { expected_args(n) } {
             part.evaluations += 1;
             part.distinct_nontrivial += 1;
-            let r = &results[&e];
+            let Some(got) = args.iter().find(|l| l["name"] == name) else {
+                part.violate("C06:std:argument-missing", format!("[n={n}] `{name}` is not among the arguments shown: {}", short(&run.obs[7]["res"]["frames"][0]["args"])), replay.clone());
+                continue;
+            };
+            let p = plain(&got["v"]);
+            if p != want {
+                let kind = got["v"]["k"].as_str().unwrap_or("?");
+                part.violate(format!("C06:std:argument-value-differs:{kind}"), format!("[n={n}] `{name}`: shown {}, the program holds {}", short(&p), short(&want)), replay.clone());
+            }
+        }
+        if !expressions && args.len() != expected_args(n).len() {
+            part.violate("C06:std:argument-list-differs", format!("[n={n}] {} arguments shown, the function has {}", args.len(), expected_args(n).len()), replay.clone());
+        }
+        // expressions (C07 meaning on collections)
+        let arg_results = &run.obs[8]["res"]["results"];
+        let results = &run.obs[4]["res"]["results"];
+        for (e, want, is_arg) in if expressions { expected_dqe(n).into_iter().map(|(e, w)| (e, w, false)).chain(expected_arg_dqe(n).into_iter().map(|(e, w)| (e, w, true))).collect::<Vec<_>>() } else { vec![] } {
+            part.evaluations += 1;
+            part.distinct_nontrivial += 1;
+            let r = if is_arg { &arg_results[&e] } else { &results[&e] };
             let got: Option<Value> = r["ok"].as_array().and_then(|a| a.first()).map(|x| plain(&x["v"]));
             let ok = match (&got, &want) {
                 (Some(g), Some(w)) => g == w,
@@ -396,8 +471,8 @@ pub fn part_std(tier: Tier, expressions: bool) -> Part {
             }
         }
         // the program still prints what it holds
-        if !expressions && !run.obs.get(5).map(|o| o["res"]["kind"] == "exit").unwrap_or(false) {
-            part.violate("C06:std:program-did-not-finish", format!("[n={n}] {:?}", run.obs.get(5).map(|o| o["res"].clone())), replay.clone());
+        if !expressions && !run.obs.get(9).map(|o| o["res"]["kind"] == "exit").unwrap_or(false) {
+            part.violate("C06:std:program-did-not-finish", format!("[n={n}] {:?}", run.obs.get(9).map(|o| o["res"].clone())), replay.clone());
         }
     }
     part.bounds = json!({"size_parameters": configs, "locals": expected(3).len(), "expressions": expected_dqe(3).len(), "toolchain": "1.89"});
@@ -413,7 +488,7 @@ fn short(v: &Value) -> String {
 /// the program itself prints for the same value with `{:?}` a moment later.
 pub fn part_vard(tier: Tier) -> Part {
     let mut part = Part::new("c16_vard");
-    part.rule = "std-linked generated program that prints every one of its 30 values with {:?} after the stop: at the stop `vard <name>` (call_debug_fmt, the program's own Debug code run inside the stopped thread) is evaluated for each; every text returned must equal the line the program prints itself afterwards, the registers are unchanged by the calls, and the program finishes with its normal output. An error answer (no callable instantiation found) is accepted, a different text is not".into();
+    part.rule = "std-linked generated program that prints every one of its 30 values with {:?} after the stop: at the stop `vard <name>` (call_debug_fmt, the program's own Debug code run inside the stopped thread) is evaluated for each, and at a second stop inside a callee `argd <name>` for each of its 8 parameters; every text returned must equal the line the program prints itself afterwards, the registers are unchanged by the calls, and the program finishes with its normal output. An error answer (no callable instantiation found) is accepted, a different text is not".into();
     let configs: &[(u64, u64)] = if tier == Tier::Quick { &[(3, 5)] } else { &[(1, 0), (3, 5), (12, 7), (40, 13)] };
     for &(n, wrap) in configs {
         let (exe, file, line) = match ensure_built(n, wrap) {
@@ -423,26 +498,36 @@ pub fn part_vard(tier: Tier) -> Part {
                 continue;
             }
         };
-        let cmds = vec![json!({"op": "break_line", "file": file, "line": line}), json!({"op": "start"}), json!({"op": "vard", "exprs": VARD_NAMES}), json!({"op": "continue"})];
+        let arg_line = program(n, wrap).lines().position(|l| l.contains("DBG a_vec=")).map(|i| i as u64 + 1).unwrap_or(0);
+        let cmds = vec![
+            json!({"op": "break_line", "file": file, "line": line}),
+            json!({"op": "break_line", "file": file, "line": arg_line}),
+            json!({"op": "start"}),
+            json!({"op": "vard", "exprs": VARD_NAMES}),
+            json!({"op": "continue"}),
+            json!({"op": "vard", "exprs": ARGD_NAMES, "args": true}),
+            json!({"op": "continue"}),
+        ];
         let run = session(&exe, |obs| cmds.get(obs.len()).cloned(), Duration::from_secs(120), cmds.len());
         let replay = json!({"engine": "mt", "exe": exe, "commands": cmds});
         part.states += run.obs.len() as u64;
         part.traces_validated += 1;
-        if run.hang_at.is_some() || run.crashed.is_some() || run.obs.len() < 4 {
+        if run.hang_at.is_some() || run.crashed.is_some() || run.obs.len() < 7 {
             part.violate("C16:vard:session-broke", format!("[n={n}] hang {:?} crash {:?}", run.hang_at, run.crashed), replay);
             continue;
         }
         let stdout = run.result.as_ref().and_then(|r| r["stdout"].as_str()).unwrap_or("").to_string();
         let native = std::process::Command::new(&exe).output().map(|o| String::from_utf8_lossy(&o.stdout).to_string()).unwrap_or_default();
         let own: std::collections::BTreeMap<String, String> = stdout.lines().filter_map(|l| l.strip_prefix("DBG ")).filter_map(|l| l.split_once('=')).map(|(k, v)| (k.to_string(), v.to_string())).collect();
-        let v = &run.obs[2]["res"];
-        if v["registers_unchanged"] != true {
-            part.violate("C16:vard:registers-changed", format!("[n={n}] the registers of the stopped thread differ after the vard calls"), replay.clone());
+        let v = &run.obs[3]["res"];
+        let va = &run.obs[5]["res"];
+        if v["registers_unchanged"] != true || va["registers_unchanged"] != true {
+            part.violate("C16:vard:registers-changed", format!("[n={n}] the registers of the stopped thread differ after the vard / argd calls"), replay.clone());
         }
         let (mut ok, mut errs) = (0, 0);
-        for name in VARD_NAMES {
+        for (name, is_arg) in VARD_NAMES.iter().map(|x| (*x, false)).chain(ARGD_NAMES.iter().map(|x| (*x, true))) {
             part.evaluations += 1;
-            let r = &v["results"][name];
+            let r = if is_arg { &va["results"][name] } else { &v["results"][name] };
             if let Some(text) = r["ok"].as_str() {
                 ok += 1;
                 part.distinct_nontrivial += 1;
@@ -459,8 +544,8 @@ pub fn part_vard(tier: Tier) -> Part {
         }
         // the maps print in hash order, which is per process: compare the rest of the output only
         let strip = |s: &str| s.lines().filter(|l| !l.starts_with("DBG h")).collect::<Vec<_>>().join("\n");
-        if !run.obs[3]["res"]["kind"].as_str().map(|k| k == "exit").unwrap_or(false) || strip(&stdout) != strip(&native) {
-            part.violate("C16:vard:program-output-changed", format!("[n={n}] after the vard calls the program ends with {} and prints {:?}; natively {:?}", run.obs[3]["res"], short_s(&strip(&stdout)), short_s(&strip(&native))), replay.clone());
+        if !run.obs[6]["res"]["kind"].as_str().map(|k| k == "exit").unwrap_or(false) || strip(&stdout) != strip(&native) {
+            part.violate("C16:vard:program-output-changed", format!("[n={n}] after the vard calls the program ends with {} and prints {:?}; natively {:?}", run.obs[6]["res"], short_s(&strip(&stdout)), short_s(&strip(&native))), replay.clone());
         }
         part.sample(json!({"n": n, "vard_answers": ok, "vard_errors": errs, "example": {"vv": v["results"]["vv"], "opt_s": v["results"]["opt_s"]}}));
     }
